@@ -1102,7 +1102,7 @@ fn enc_encode(ch: &mut Chooser, ctx: &mut Ctx, obj: &mut dyn DynEncoder, st: &mu
     let probe_seed = ch.seed64("probe.seed");
     let crash_drop = ch.chance("enc.crashdrop", 1, 8);
     if crash_drop {
-        ctx.count("fault.F13.caller_unwinds_through_result");
+        ctx.count("fault.F14.caller_unwinds_through_result");
     }
     let mut acc = AllocStats::default();
     let mut stage = "encode";
@@ -1866,7 +1866,7 @@ fn dec_decode(ch: &mut Chooser, ctx: &mut Ctx, obj: &mut dyn DynDecoder, st: &mu
     let probe_seed = ch.seed64("probe.seed");
     let crash_drop = ch.chance("dec.crashdrop", 1, 8);
     if crash_drop {
-        ctx.count("fault.F13.caller_unwinds_through_result");
+        ctx.count("fault.F14.caller_unwinds_through_result");
     }
     let mut acc = AllocStats::default();
     let mut stage = "decode";
